@@ -141,6 +141,7 @@ func TestL6Loopback(t *testing.T) {
 	if !hx.Thorough() {
 		t.Skip("real-socket configurations run in the thorough tier only")
 	}
+	skipIfLowerLayerFailed(t)
 	name := t.Name()
 	env := runEnv{real: true}
 	for ci, cfg := range e2eConfigs {
